@@ -59,7 +59,8 @@ FValue(r) ==
 
 FArgs(r) ==
     F("ArgumentsUnchanged", \A j \in 1..Len(r.args) :
-          (r.base \in DocumentedInPlace /\ r.args[j].name = "phi") \/ r.args[j].before = r.args[j].after) \cup
+          \* (obefore / oafter: the buffers that own the memory the argument is a view of - data and mask - collected before the call)
+          (r.base \in DocumentedInPlace /\ r.args[j].name = "phi") \/ (r.args[j].before = r.args[j].after /\ r.args[j].obefore = r.args[j].oafter)) \cup
     \* an integrator's result shares no memory with any argument, and after the follow-up (every entry of the result
     \* rewritten in place by the caller) every argument still has the digest it had when the call returned
     (IF IsIntegrator(r.base) THEN F("ResultIsFresh", \A j \in 1..Len(r.args) : ~r.args[j].shares /\ r.args[j].afterw = r.args[j].after) ELSE {})
